@@ -69,11 +69,14 @@ def _match_brace(s, i):
     raise ValueError("unbalanced braces")
 
 
+TY = r"(?:long\s+long|unsigned|int|float|double|bool|char|size_t|__m128d|__m128i|__m128|fvec4|ivec4|long)"
+
+
 def shared_writes(path):
     """Plain variables assigned inside '#pragma omp parallel' regions that are declared outside the region and are
     neither in a private(...) clause nor the omp-for loop variable."""
     with open(path) as fh:
-        src = _strip_comments(fh.read())
+        src = _strip_comments(fh.read().replace("\\\n", " "))
     src = "\n".join(l for l in src.splitlines() if not re.match(r"\s*#\s*(ifdef|ifndef|endif|else|if)\b", l))
     found = []
     for m in re.finditer(r"#pragma\s+omp\s+parallel\b([^\n]*)", src):
@@ -109,15 +112,13 @@ def shared_writes(path):
             loopvars = set()
             for fm in re.finditer(r"#pragma\s+omp\s+for[^\n]*\n\s*for\s*\(\s*(?:int\s+)?(\w+)\s*=", region):
                 loopvars.add(fm.group(1))
-        locals_ = set(re.findall(r"\b(?:int|float|double|bool|char|size_t|fvec4|ivec4|unsigned|long)\s*[\*&]?\s*(\w+)\s*(?:=|;|\(|,|\[)", region))
+        locals_ = set(re.findall(r"\b%s\s*[\*&]?\s*(\w+)\s*(?:=|;|\(|,|\[)" % TY, region))
         assigned = set(re.findall(r"(?<![\w\]\.>])([A-Za-z_]\w*)\s*(?:=(?!=)|\+\+|--|\+=|-=|\*=|/=)", region))
         assigned |= set(re.findall(r"(?:\+\+|--)\s*([A-Za-z_]\w*)\b(?!\s*[\[\.])", region))
         before = src[:m.start()]
-        declared_outside = set(re.findall(r"\b(?:int|float|double|bool|char|size_t|unsigned|long)\s*\*?\s*((?:\w+\s*,\s*\*?\s*)*\w+)\s*;", before))
         names_outside = set()
-        for d in declared_outside:
-            names_outside |= {v.strip(" *") for v in d.split(",")}
-        names_outside |= set(re.findall(r"\b(?:int|float|double|bool)\s*\*\s*(\w+)\s*;", before))
+        for d in re.findall(r"\b%s\s*\*?\s*((?:\*?\s*\w+(?:\[\w*\])?\s*,\s*)*\*?\s*\w+(?:\[\w*\])?)\s*;" % TY, before):
+            names_outside |= {re.sub(r"\[.*", "", v).strip(" *") for v in d.split(",")}
         bad = sorted((assigned & names_outside) - private - loopvars - locals_)
         found += bad
     return found
@@ -190,6 +191,7 @@ def gen_text(ops, shared, note):
 
 
 _STATIC = {}
+LINTED = ("mdtraj/geometry/src/sasa.cpp", "mdtraj/geometry/src/neighborlist.cpp", "mdtraj/rmsd/src/center_sse.h")
 
 
 def static_view():
@@ -197,7 +199,7 @@ def static_view():
         repo = common.REPO
         ops, buf = sasa_skeleton(os.path.join(repo, "mdtraj/geometry/src/sasa.cpp"))
         shared = []
-        for rel in ("mdtraj/geometry/src/sasa.cpp", "mdtraj/geometry/src/neighborlist.cpp"):
+        for rel in LINTED:
             shared += ["%s:%s" % (os.path.basename(rel), v) for v in shared_writes(os.path.join(repo, rel))]
         tags = [o[0] for o in ops]
         disciplined = tags[0] in ("zero", "set")
@@ -224,8 +226,9 @@ def trajs_for(ctx):
     out = [{"id": "2EQQ", "kind": "file", "path": pdb, "frames": frames, "box": False},
            {"id": "rand-box", "kind": "random", "n_atoms": rng.choice([24, 40, 56]), "n_frames": rng.choice([4, 6, 9]),
             "seed": rng.randrange(10 ** 6), "box": True}]
+    out.append({"id": "rand-nobox", "kind": "random", "n_atoms": rng.choice([33, 64]), "n_frames": rng.choice([3, 8, 12]),
+                "seed": rng.randrange(10 ** 6), "box": False})
     if not quick:
-        out.append({"id": "rand-nobox", "kind": "random", "n_atoms": 64, "n_frames": 12, "seed": rng.randrange(10 ** 6), "box": False})
         out.append({"id": "2EQQ-all", "kind": "file", "path": pdb, "frames": list(range(20)), "box": False})
         out.append({"id": "one-frame", "kind": "random", "n_atoms": 32, "n_frames": 1, "seed": rng.randrange(10 ** 6), "box": True})
     return out
@@ -243,6 +246,9 @@ def envs_for(ctx, fmax):
     if quick:
         for i, t in enumerate(threads):
             envs.append({"OMP_NUM_THREADS": str(t), "OMP_SCHEDULE": scheds[i % 3]})
+        for i, t in enumerate(threads[1:]):
+            envs.append({"OMP_NUM_THREADS": str(t), "OMP_SCHEDULE": scheds[(i + 2) % 3]})
+        envs.append({"OMP_NUM_THREADS": "2", "OMP_SCHEDULE": "static", "OMP_DYNAMIC": "true"})
         envs.append({"OMP_NUM_THREADS": "3", "OMP_SCHEDULE": "guided", "OMP_DYNAMIC": "true"})
         envs.append({"OMP_NUM_THREADS": "16", "OMP_SCHEDULE": "dynamic,1", "OMP_DYNAMIC": "true"})
     else:
@@ -350,21 +356,27 @@ def explain_sasa(ctx, obs):
 
 
 def carry_arithmetic_ok(rec):
-    """company[f] - alone[f] == company[f-1] * (alone[f] / count) cannot be formed without the count; use the ratio form:
-    for atoms with alone[f] > 0 and alone[f-1] > 0 the as-found loop gives company[f]/alone[f] - 1 == company[f-1] * k / alone[f]
-    with the same k = c*r^2 > 0 for the atom in every frame, i.e. (company[f]-alone[f])/company[f-1] is the same positive
-    number for all carried frames of an atom (relative spread < 1e-4)."""
+    """The as-found loop gives company[f] = (company[f-1] + count) * k and alone[f] = count * k with the same
+    k = c*r^2 > 0 for an atom in every frame, hence company[f] - alone[f] = k * company[f-1] for every carried frame.
+    k is estimated per atom from the carried frame with the largest company[f-1] and the identity is then checked on all
+    frames of that atom under the float32 bound 1e-6*company[f] + 1e-3*k*company[f-1].  (With several threads the
+    predecessor in the thread is still frame f-1 for every carried frame: static blocks are contiguous.)"""
     comp, alone = rec["values"], rec["values_alone"]
     F = len(comp)
     n = len(comp[0]) if F else 0
     for j in range(n):
-        ks = []
-        for f in range(1, F):
-            d = comp[f][j] - alone[f][j]
-            if d != 0.0 and comp[f - 1][j] > 0:
-                ks.append(d / comp[f - 1][j])
-        if ks and (min(ks) <= 0 or (max(ks) - min(ks)) > 1e-3 * max(ks)):
+        carried = [f for f in range(1, F) if comp[f][j] != alone[f][j]]
+        if not carried:
+            continue
+        fr = max(carried, key=lambda f: comp[f - 1][j])
+        if comp[fr - 1][j] <= 0:
             return False
+        k = (comp[fr][j] - alone[fr][j]) / comp[fr - 1][j]
+        if k <= 0:
+            return False
+        for f in carried:
+            if abs((comp[f][j] - alone[f][j]) - k * comp[f - 1][j]) > 1e-6 * abs(comp[f][j]) + 1e-3 * k * comp[f - 1][j] + 1e-12:
+                return False
     return True
 
 
